@@ -126,6 +126,17 @@ Proof.
 Qed.
 Print Assumptions C16_ring_file_is_concatenation_of_writes.
 
+(* destroying the stream always flushes the remainder and joins its writer thread: every schedule of
+   constructor, writes and destructor is FINITE (a natural-number measure decreases with every step of
+   either thread), it can only end with both threads finished (C16_ring_no_deadlock), and then the file is
+   complete and flushed (C16_ring_file_is_concatenation_of_writes) *)
+Theorem C16_ring_destructor_always_completes :
+  forall K B prog ls s, 2 <= K -> 1 <= B -> Forall (rop_ok B) prog ->
+  run (ring_step K B) (ring_init (ring_output_init K) (ring_trash_init K) B prog) ls = Some s ->
+  length ls <= rmeasure B (ring_init (ring_output_init K) (ring_trash_init K) B prog).
+Proof. intros K B prog ls s HK HB Hok. exact (ring_runs_bounded_proof K B HK HB prog Hok ls s). Qed.
+Print Assumptions C16_ring_destructor_always_completes.
+
 (* with a single block the protocol of the source WOULD deadlock in the destructor (why K >= 2 is needed):
    the owner waits for a free block after posting the poison, the writer exits without freeing one *)
 Theorem C16_ring_one_block_deadlocks :
